@@ -12,7 +12,7 @@ import (
 func init() {
 	register(&propDef{
 		ID:          "C19",
-		Explanation: "Structural rules for Kafka publication, decided on SSA/AST: (1) PublishIPFIXMessages ranges over the channel and, per message, ranges in order over the convertor's slice, calling SendFlowMessage(element, true) synchronously for the loop's own element; (2) every convertor returns nil when the set type is Template (test dominating everything else) and otherwise allocates len(records) outputs and fills out[i] from records[i] for the range index i of set.GetRecords(); the four header fields are copied from GetExportTime/GetSequenceNum/GetObsDomainID/GetExportAddress of the same message; (3) SendFlowMessage: exactly one send on producer.Input() on the marshal-ok path, Topic = configured topic, Value = ByteEncoder(append(prefix, bytes...)) where bytes is the marshal result and prefix is a FRESH 4-byte slice holding BigEndian uint32(len(bytes)) (so a payload handed to the asynchronous producer is never overwritten by the next record); 4 == consumer msgDelimitLen and the consumer decodes value[msgDelimitLen:] with proto.Unmarshal (which resets the destination message); R-ERR: every path through SendFlowMessage must reach the send - the marshal-error edge does not (known finding); (4) R-GETTER: every case \"name\" of both convertors uses an accessor declared by the element type that name has in the registries (incl. derived reverse names). Not decided: protobuf wire content, sarama delivery. Later additions: constant indexing of slices on the publishing path needs a length test; sarama configuration fields outside the audited set are undecided. Round-five additions: the sarama Return.Successes / Return.Errors flags are assigned unconditionally from the configuration; the consumer refuses only frames shorter than the length prefix.",
+		Explanation: "Structural rules for Kafka publication, decided on SSA/AST: (1) PublishIPFIXMessages ranges over the channel and, per message, ranges in order over the convertor's slice, calling SendFlowMessage(element, true) synchronously for the loop's own element; (2) every convertor returns nil when the set type is Template (test dominating everything else) and otherwise allocates len(records) outputs and fills out[i] from records[i] for the range index i of set.GetRecords(); the four header fields are copied from GetExportTime/GetSequenceNum/GetObsDomainID/GetExportAddress of the same message; (3) SendFlowMessage: exactly one send on producer.Input() on the marshal-ok path, Topic = configured topic, Value = ByteEncoder(append(prefix, bytes...)) where bytes is the marshal result and prefix is a FRESH 4-byte slice holding BigEndian uint32(len(bytes)) (so a payload handed to the asynchronous producer is never overwritten by the next record); 4 == consumer msgDelimitLen and the consumer decodes value[msgDelimitLen:] with proto.Unmarshal (which resets the destination message); R-ERR: every path through SendFlowMessage must reach the send - the marshal-error edge does not (known finding); (4) R-GETTER: every case \"name\" of both convertors uses an accessor declared by the element type that name has in the registries (incl. derived reverse names). Not decided: protobuf wire content, sarama delivery. Later additions: constant indexing of slices on the publishing path needs a length test; sarama configuration fields outside the audited set are undecided. Round-five additions: the sarama Return.Successes / Return.Errors flags are assigned unconditionally from the configuration; the consumer refuses only frames shorter than the length prefix. Round-six additions: a message field filled from an element accessor receives that value on every path.",
 		Assume:      []string{"proto.Marshal/Unmarshal and sarama.AsyncProducer semantics"},
 		Run:         runC19,
 	})
@@ -598,6 +598,7 @@ func runC19(p *Prog, r *Report, tier string) {
 			"the consumer does not decode with proto.Unmarshal (e.g. merge semantics on a reused message keep field values of earlier records)", true)
 	}
 
+	checkConvertorValuesUnconditional(p, r, "R-VALUE.field-value")
 	// (4) getters by element name
 	tb := p.liftIETables()
 	names, problems := p.nameTypes(tb)
@@ -682,5 +683,83 @@ func checkSaramaConfig(p *Prog, r *Report, rule string) {
 	})
 	if n < 3 {
 		r.Undecided(rule, fnKey(f)+": stores into the sarama configuration", p.pos(f.Pos()), fmt.Sprintf("found %d, expected at least Version and the two Return flags", n))
+	}
+}
+
+// checkConvertorValuesUnconditional: in the schema convertors a message field that is filled from an element's accessor
+// is filled with that value on EVERY path - a constant substituted on some paths (a "malformed value" guard, a default)
+// makes the published payload lose a value the record holds. Helpers are followed one level (all their returns).
+func checkConvertorValuesUnconditional(p *Prog, r *Report, rule string) {
+	n := 0
+	var leaves func(v ssa.Value, d int) (acc, con int)
+	leaves = func(v ssa.Value, d int) (acc, con int) {
+		if d > 6 {
+			return 0, 0
+		}
+		switch x := v.(type) {
+		case *ssa.Const:
+			return 0, 1
+		case *ssa.Convert:
+			return leaves(x.X, d+1)
+		case *ssa.ChangeType:
+			return leaves(x.X, d+1)
+		case *ssa.Phi:
+			for _, e := range x.Edges {
+				a, c := leaves(e, d+1)
+				acc += a
+				con += c
+			}
+			return
+		case *ssa.Call:
+			if x.Call.IsInvoke() {
+				if isValueAccessor(x.Call.Method.Name()) && strings.HasPrefix(x.Call.Method.Name(), "Get") {
+					return 1, 0
+				}
+				return 0, 0
+			}
+			cal := x.Call.StaticCallee()
+			if cal == nil {
+				return 0, 0
+			}
+			if cal.Name() == "String" && len(x.Call.Args) == 1 {
+				return leaves(x.Call.Args[0], d+1)
+			}
+			if strings.Contains(fnKey(cal), "pkg/kafka/") && cal.Blocks != nil {
+				eachInstr(cal, func(in ssa.Instruction) {
+					if rt, ok := in.(*ssa.Return); ok && len(rt.Results) == 1 {
+						a, c := leaves(rt.Results[0], d+2)
+						acc += a
+						con += c
+					}
+				})
+				return
+			}
+		}
+		return 0, 0
+	}
+	for _, f := range p.RepoFns {
+		if !keyInPkg(fnKey(f), "pkg/kafka/producer/convertor/test") {
+			continue
+		}
+		eachInstr(f, func(in ssa.Instruction) {
+			st, ok := in.(*ssa.Store)
+			if !ok {
+				return
+			}
+			tn, fn, _, ok := fieldOf(st.Addr)
+			if !ok || !strings.Contains(tn, "protobuf.FlowType") {
+				return
+			}
+			a, c := leaves(st.Val, 0)
+			if a == 0 {
+				return
+			}
+			n++
+			r.Check(c == 0, rule, fmt.Sprintf("%s: %s.%s is the element's value on every path", fnKey(f), tn[strings.LastIndex(tn, ".")+1:], fn), p.instrPos(in), "accessor value (converted), unconditionally",
+				"on some path the field receives a constant instead of the element's value: a value the record holds is missing from the published message", true)
+		})
+	}
+	if n < 20 {
+		r.Undecided(rule, "anchor: message fields filled from element accessors", "pkg/kafka/producer/convertor/test", fmt.Sprintf("only %d found", n))
 	}
 }
